@@ -120,8 +120,36 @@ def run_size(ctx):
     return n
 
 
+def run_cycles(ctx):
+    """Writing must complete: no recursion among size()/write_* (generated code has no legitimate recursion)."""
+    import re
+    from ..callgraph import CallGraph
+    n = 0
+    for crate in ("wow_world_messages", "wow_login_messages"):
+        cg = CallGraph(crate)
+        n += len(cg.edges)
+        for comp in cg.sccs():
+            names = [c.split("::")[-1] for c in comp]
+            if any(re.match(r"^(size|size_uncompressed|size_without_header|write_into_vec|(tokio_|astd_)?write_\w+)$", x) for x in names):
+                rec = F_fn(crate, comp)
+                ctx.violate("write.no-cycle", f"{crate}|" + "|".join(sorted(gpath(crate, c) for c in comp))[:400],
+                            f"unbounded recursion on a write path: {' -> '.join(sorted(comp))} call each other (stack overflow when the message is written)",
+                            rec["file"] if rec else None, rec["line"] if rec else None)
+    ctx.rule("write.no-cycle", n, floor=30000, note="functions in the resolved call graph searched for cycles through size()/write_*")
+
+
+def F_fn(crate, comp):
+    g = state()["g"]
+    for c in sorted(comp):
+        r = g.f(crate).fn(c)
+        if r:
+            return r
+    return None
+
+
 def run(ctx):
     run_size(ctx)
+    run_cycles(ctx)
     try:
         from . import c02_frame
         c02_frame.run_frame(ctx)
